@@ -27,6 +27,8 @@ func runC09(c *fw.Ctx) {
 	r92(c)
 	r93(c)
 	r94(c)
+	r95(c)
+	r96(c)
 }
 
 // genPkgExpr: expression denotes the generated package's *types.Package (X.Types with X a *Package, or a local alias of it).
@@ -597,4 +599,121 @@ func r94(c *fw.Ctx) {
 		}
 	}
 	c.Check(reached, rule, "markUsed/every-declaration-walked", rs.Pos(), "every declaration of the list must be handed to ast.Walk (no skip before it)")
+}
+
+// R9.5: every package-qualified reference of a file is the file's one shared import identifier. The name an
+// import finally gets is patched into that node when the file is written (astVisitor.Visit); a reference
+// that holds a copy of the identifier (same Name/Obj, another node) keeps the old name when the import is
+// renamed. The result of File.newImport must therefore go into the syntax as the node itself: used whole
+// (field value, argument of the identity wrapper util.FakeExprOf, return value), never taken apart.
+func r95(c *fw.Ctx) { r95as(c, "R9.5") }
+
+func r95as(c *fw.Ctx, rule string) {
+	p := c.Pkg("")
+	info := p.TypesInfo
+	n := 0
+	for _, fd := range c.Decls() {
+		if c.PkgOfDecl(fd) != p || fd.Body == nil {
+			continue
+		}
+		fname := declName(c, fd)
+		// variables bound to a newImport result
+		shared := map[types.Object]bool{}
+		ast.Inspect(fd.Body, func(m ast.Node) bool {
+			as, ok := m.(*ast.AssignStmt)
+			if !ok || len(as.Lhs) != 1 || len(as.Rhs) != 1 {
+				return true
+			}
+			if call, ok := unparen(as.Rhs[0]).(*ast.CallExpr); ok && isFunc(callee(info, call), fw.Mod, "File.newImport") {
+				if id, ok := as.Lhs[0].(*ast.Ident); ok {
+					o := info.Defs[id]
+					if o == nil {
+						o = info.Uses[id]
+					}
+					shared[o] = true
+				}
+			}
+			return true
+		})
+		if len(shared) == 0 || fname == "(*File).newImport" {
+			continue
+		}
+		n++
+		bad := ""
+		var badPos token.Pos
+		nUses := 0
+		var stack []ast.Node
+		ast.Inspect(fd.Body, func(m ast.Node) bool {
+			if m == nil {
+				stack = stack[:len(stack)-1]
+				return true
+			}
+			stack = append(stack, m)
+			id, ok := m.(*ast.Ident)
+			if !ok || !shared[info.Uses[id]] || len(stack) < 2 {
+				return true
+			}
+			nUses++
+			switch par := stack[len(stack)-2].(type) {
+			case *ast.SelectorExpr:
+				if par.X == ast.Expr(id) {
+					bad, badPos = "reads "+exprString(par)+" to build another node", par.Pos()
+				}
+			case *ast.StarExpr:
+				bad, badPos = "copies the identifier (*"+id.Name+")", par.Pos()
+			}
+			return true
+		})
+		if badPos == token.NoPos {
+			badPos = fd.Pos()
+		}
+		c.Check(bad == "" && nUses > 0, rule, fname+"/reference-is-the-shared-import-identifier", badPos,
+			"the package reference must be the file's shared import identifier node itself; this function %s: a renamed import would keep its old name at this reference", bad)
+	}
+	c.Floor(rule, "functions building package-qualified references", n, 2)
+}
+
+// R9.6: whether a file's imports are (re)marked as used at write time is decided by File.dirty. Every
+// reference handed out by File.newImport can end up in a declaration that did not exist - or did not contain
+// it - at the previous write, also when the import identifier already exists (an earlier reference to the
+// same package was built and discarded, or the file was written in between). So newImport (and forceImport
+// when it adds an entry) must leave the file dirty on every path that returns.
+func r96(c *fw.Ctx) {
+	const rule = "R9.6"
+	fd, p := needDecl(c, rule, "(*File).newImport")
+	if fd == nil {
+		return
+	}
+	info := p.TypesInfo
+	paths, trunc := enumPaths(info, fd.Body)
+	if trunc {
+		c.Undecided(rule, "newImport/paths", fd.Pos(), "too many paths")
+		return
+	}
+	nNormal, nDirty := 0, 0
+	for _, pa := range paths {
+		if pa.Abnormal {
+			continue
+		}
+		nNormal++
+		dirty := false
+		for _, nd := range pa.Nodes {
+			if as, ok := nd.(*ast.AssignStmt); ok {
+				for i, l := range as.Lhs {
+					if se, ok := unparen(l).(*ast.SelectorExpr); ok {
+						if fv, ok := info.Uses[se.Sel].(*types.Var); ok && fv.IsField() && fv.Name() == "dirty" && i < len(as.Rhs) {
+							if v := constOf(info, as.Rhs[i]); v != nil && v.String() == "true" {
+								dirty = true
+							}
+						}
+					}
+				}
+			}
+		}
+		if dirty {
+			nDirty++
+		}
+	}
+	c.Check(nNormal > 0 && nDirty == nNormal, rule, "newImport/marks-file-dirty-on-every-path", fd.Pos(),
+		"%d of %d normal paths of newImport mark the file dirty: a reference to an import whose identifier already exists (built and discarded before an earlier write) is emitted without its import", nDirty, nNormal)
 }
